@@ -116,13 +116,13 @@ func (q *Queue) Add(elem *queue.Elem) (err error) {
 		dropErr = queue.ErrDropQueueFull
 		drop = true
 
-		// drop expired inflight message
-		if v := q.l.Front(); v != q.current &&
-			v != nil &&
-			queue.ElemExpiry(now, v.Value.(*queue.Elem)) {
-			dropElem = v
-			dropErr = queue.ErrDropExpiredInflight
-			return
+		// drop expired inflight message (the inflight messages precede the queued ones)
+		for v := q.l.Front(); v != nil && v.Value.(*queue.Elem).ID() != 0; v = v.Next() {
+			if queue.ElemExpiry(now, v.Value.(*queue.Elem)) {
+				dropElem = v
+				dropErr = queue.ErrDropExpiredInflight
+				return
+			}
 		}
 
 		// drop the current elem if there is no more non-inflight messages.
